@@ -222,6 +222,10 @@ func (d *Data) handleBlocks(ctx *datastore.VersionedCtx, w http.ResponseWriter, 
 			server.BadRequest(w, r, "must specify 3D subvolumes", subvol.StartPoint(), subvol.EndPoint())
 			return
 		}
+		if subvol.Size().Value(0) < 0 || subvol.Size().Value(1) < 0 || subvol.Size().Value(2) < 0 {
+			server.BadRequest(w, r, "size of subvolume cannot be negative: %s", subvol.Size())
+			return
+		}
 
 		// Make sure subvolume gets align with blocks
 		if !dvid.BlockAligned(subvol, d.BlockSize()) {
